@@ -326,7 +326,7 @@ func Plans() map[string]*Plan {
 				ioEnumPart("C16", 300, 30000),
 				ioConcPart("C16", 6000, 600000, p, RunOpts{}),
 				concPart("C16", "S-CONC/compaction-storm", 8000, 800000, stormProfile(), RunOpts{}),
-				timePart("C16", "S-TIME", 4000, 400000, p, RunOpts{}),
+				timePart("C16", "S-TIME", 8000, 800000, p, RunOpts{}),
 			},
 			Rule: "S-CONC with failure paths provoked (contended Adds, rejected transactions, lost lock races, empty stacks, Clean/Close in all states), S-CONC/compaction-storm, S-CRASH-RAND, S-TURN; S-IOERR-CONC: the same with 1-3 injected I/O errors (EIO, ENOSPC with a short write, EMFILE, EACCES, EDQUOT at single filesystem calls, addressed by step or by call kind); S-IOERR: every filesystem call of a sampled target operation fails once (one run per call), the process goes on using its handle; S-TIME: slow-process windows and clock jumps; residue monitors at every idle point and at quiescence; non-trivial = some operation failed or lost a lock race; distinct = distinct projected event-sequence hash",
 			Nontrivial: func(r *RunResult) bool {
